@@ -1,3 +1,4 @@
 pub mod core;
 pub mod lattice;
 pub mod refcal;
+pub mod refleap;
